@@ -84,6 +84,7 @@ type Ctx struct {
 	deadline time.Time
 	expired  bool
 	counter  int64
+	ticks    int64
 
 	res result
 
@@ -141,6 +142,16 @@ func (c *Ctx) Mine() bool {
 		return false
 	}
 	return int(i%int64(c.NShards)) == c.Shard
+}
+
+// Tick checks the time budget from inside long searches that do not call Mine.
+func (c *Ctx) Tick() bool {
+	c.ticks++
+	if c.ticks&0x3ff == 0 && !c.expired && !c.deadline.IsZero() && time.Now().After(c.deadline) {
+		c.expired = true
+		c.res.Expired = true
+	}
+	return c.expired
 }
 
 // Expired reports whether the time budget was hit.
